@@ -140,6 +140,52 @@ def _gen_atom(rng: random.Random, names: list[str], flags: dict, first: str | No
     return ["P", ch, pa]
 
 
+def _near_dup(rng: random.Random, atom: list, flags: dict) -> list:
+    """A probability that differs from `atom` in exactly one small aspect (stress for sort keys and memo keys)."""
+    a = copy.deepcopy(atom)
+    ci, pi = (1, 2) if a[0] == "P" else (2, 3)
+    for _ in range(6):
+        k = rng.choice(("star", "istar", "pop", "move", "drop", "ivar"))
+        if k == "star":
+            side = a[rng.choice((ci, pi))]
+            if side:
+                v = side[rng.randrange(len(side))]
+                v[1] = rng.choice([x for x in (None, True, False) if x != v[1]])
+                return a
+        elif k == "istar":
+            cands = [v for v in a[ci] + a[pi] if v[2]]
+            if cands:
+                v = rng.choice(cands)
+                v[2] = copy.deepcopy(v[2])
+                i = rng.randrange(len(v[2]))
+                v[2][i][1] = not v[2][i][1]
+                return a
+        elif k == "pop":
+            if a[0] == "P":
+                return ["PP", rng.choice(flags["pops"]), a[1], a[2]]
+            others = [x for x in flags["pops"] if x != a[1]]
+            if others and rng.random() < 0.5:
+                return ["PP", rng.choice(others), a[2], a[3]]
+            return ["P", a[2], a[3]]
+        elif k == "move":
+            if a[pi]:
+                v = a[pi].pop(rng.randrange(len(a[pi])))
+                a[ci].append(v)
+                return a
+        elif k == "drop":
+            if a[pi]:
+                a[pi].pop(rng.randrange(len(a[pi])))
+                return a
+        elif k == "ivar":
+            cands = [v for v in a[ci] + a[pi] if len(v[2]) >= 2]
+            if cands:
+                v = rng.choice(cands)
+                v[2] = copy.deepcopy(v[2])
+                v[2].pop(rng.randrange(len(v[2])))
+                return a
+    return a
+
+
 def gen_expr(rng: random.Random, names: list[str], depth: int, flags: dict, allow_zero: bool = True) -> list:
     if depth <= 0 or rng.random() < 0.3:
         x = rng.random()
@@ -156,6 +202,10 @@ def gen_expr(rng: random.Random, names: list[str], depth: int, flags: dict, allo
             fs = [_gen_atom(rng, names, flags, first=first) for _ in range(k)]
         else:
             fs = [gen_expr(rng, names, depth - 1, flags, allow_zero) for _ in range(k)]
+        if flags.get("near_dup"):
+            atoms = [f for f in fs if f[0] in ("P", "PP")]
+            if atoms and rng.random() < 0.7:
+                fs.insert(rng.randrange(len(fs) + 1), _near_dup(rng, rng.choice(atoms), flags))
         return ["*", fs]
     if x < 0.65:
         inner = gen_expr(rng, names, depth - 1, flags, allow_zero)
@@ -180,6 +230,8 @@ def gen_expr(rng: random.Random, names: list[str], depth: int, flags: dict, allo
         return ["S", rg, inner]
     num = gen_expr(rng, names, depth - 1, flags, allow_zero)
     y = rng.random()
+    if flags.get("near_dup") and num[0] in ("P", "PP") and y < 0.4:
+        return ["/", num, _near_dup(rng, num, flags)]
     if y < 0.15:
         den = copy.deepcopy(num)
         if _has_zero(den):
@@ -265,8 +317,9 @@ def gen_case(seed: int, s: int) -> dict:
     flags = {
         "tie_first_child": rng.random() < 0.3,
         "same_name_cf": rng.random() < 0.15,
+        "near_dup": rng.random() < 0.3,
         "p_pp": rng.choice((0.0, 0.15, 0.5)),
-        "pops": ["pi" + str(i) for i in range(1, rng.randint(1, 2) + 1)],
+        "pops": ["pi" + str(i) for i in range(1, rng.randint(1, 3) + 1)],
     }
     depth = rng.choice((1, 2, 2, 3, 3, 4))
     r = gen_expr(rng, names, depth, flags)
